@@ -100,7 +100,7 @@ def run_obligation(prop, o, tier, seed, scratch):
     aborted = None
     try:
         p = subprocess.run([PY, '-m', 'vt.worker', prop, o.id, tier, str(seed), journal, summary], cwd=ROOT,
-                           env=env(), timeout=budget * 1.6 + 90, stdout=subprocess.PIPE, stderr=subprocess.PIPE)
+                           env=env(), timeout=budget * 3.2 + 120, stdout=subprocess.PIPE, stderr=subprocess.PIPE)
         if p.returncode != 0:
             aborted = 'worker exit %d: %s' % (p.returncode, p.stderr.decode('utf8', 'replace')[-800:])
     except subprocess.TimeoutExpired:
